@@ -237,7 +237,7 @@ class H(Harness):
     TIE_IMPORT = 'From EpyV Require Import Model.GF Model.GFNet Tie.C17.'
     CHECK_FN = 'EpyV.Tie.C17.check_case'
     VO_TARGETS = ['Properties/C17.vo', 'Tie/C17.vo']
-    QUICK_N = 260
+    QUICK_N = 200
     THOROUGH_N = 2600
     CASE_TIMEOUT = 120
     ALLOWED_AXIOMS = set()
@@ -275,12 +275,12 @@ class H(Harness):
 
     def gen_cases(self, tier, rnd, n):
         out = []
-        n_plc = 8 if tier == 'quick' else 150
+        n_plc = 6 if tier == 'quick' else 150
         n_er = n // 4
         n_poly = n // 5
         n_geo = n // 16
         for _ in range(n_plc):
-            out.append(plc_case(rnd, fast=(rnd.random() < (0.75 if tier == 'quick' else 0.4))))
+            out.append(plc_case(rnd, fast=(rnd.random() < (0.8 if tier == 'quick' else 0.4))))
         for _ in range(n_er):
             out.append(er_case(rnd))
         for k in range(n_poly):
@@ -297,7 +297,7 @@ class H(Harness):
         out.append(net_case(one))
         loop = networkx.Graph(); loop.add_edge(0, 0)
         out.append(net_case(loop))
-        for hub in ((299, 300, 301, 340) if tier == 'quick' else (299, 300, 301, 302, 340, 400)):
+        for hub in ((300, 301, 340) if tier == 'quick' else (299, 300, 301, 302, 340, 400)):
             out.append(net_case(networkx.star_graph(hub), extra=(hub - 1,)))
         # all graphs on 3 nodes with optional self-loops on node 0 (4 nodes in the thorough tier)
         nn = 3 if tier == 'quick' else 4
@@ -314,6 +314,9 @@ class H(Harness):
 
     # ---------------------------------------------------------------- execute
 
+    # exceptions of the gf code on well-formed input are observable behaviour (reported by D)
+    OBSERVABLE = (ArithmeticError, LookupError, TypeError, AttributeError, RecursionError, NotImplementedError)
+
     def execute(self, case):
         import epydemic.gf as G
         if case['kind'] == 'net':
@@ -322,21 +325,26 @@ class H(Harness):
             g.add_edges_from(tuple(e) for e in case['edges'])
             try:
                 gf = G.gf_from_network(g)
+                return {'valueerror': None, 'raised': None, 'nodes': list(g.nodes()), 'edges': [list(e) for e in g.edges()],
+                        'degrees': sorted(d for _, d in g.degree()),
+                        'coeffs': [float(gf[i]) for i in case['idx']], 'one': float(gf(1)), 'mean': float(gf.dx()(1))}
             except ValueError as e:
-                return {'valueerror': str(e), 'edges': [list(e) for e in g.edges()], 'nodes': list(g.nodes())}
-            return {'valueerror': None, 'nodes': list(g.nodes()), 'edges': [list(e) for e in g.edges()],
-                    'degrees': sorted(d for _, d in g.degree()),
-                    'coeffs': [float(gf[i]) for i in case['idx']], 'one': float(gf(1)), 'mean': float(gf.dx()(1))}
-        gf = scaled(series_of(case), case['scale'])
-        coeffs = []
-        for order, i in case['queries']:
-            obj = gf.dx(order) if order else gf
-            coeffs.append(float(obj[i]))
-        values = []
-        for order, x in case['values']:
-            obj = gf.dx(order) if order else gf
-            values.append(float(obj(x)))
-        return {'coeffs': coeffs, 'values': values}
+                return {'valueerror': str(e), 'raised': None, 'edges': [list(e) for e in g.edges()], 'nodes': list(g.nodes())}
+            except self.OBSERVABLE as e:
+                return {'valueerror': None, 'raised': type(e).__name__ + ': ' + str(e), 'edges': [list(e) for e in g.edges()], 'nodes': list(g.nodes())}
+        try:
+            gf = scaled(series_of(case), case['scale'])
+            coeffs = []
+            for order, i in case['queries']:
+                obj = gf.dx(order) if order else gf
+                coeffs.append(float(obj[i]))
+            values = []
+            for order, x in case['values']:
+                obj = gf.dx(order) if order else gf
+                values.append(float(obj(x)))
+        except self.OBSERVABLE + (ValueError,) as e:
+            return {'raised': type(e).__name__ + ': ' + str(e), 'coeffs': [], 'values': []}
+        return {'raised': None, 'coeffs': coeffs, 'values': values}
 
     # ---------------------------------------------------------------- D
 
@@ -346,6 +354,8 @@ class H(Harness):
     def _direct_net(self, case, obs):
         v = []
         N = len(case['nodes'])
+        if obs['raised']:
+            return [{'signature': 'network-gf-raised', 'detail': obs['raised']}]
         if N == 0:
             return [] if obs['valueerror'] else [{'signature': 'empty-network-accepted', 'detail': None}]
         if obs['valueerror']:
@@ -376,6 +386,8 @@ class H(Harness):
     def _direct_series(self, case, obs):
         v = []
         kind = case['kind']
+        if obs['raised']:
+            return [{'signature': 'analytic-raised:' + kind, 'detail': obs['raised']}]
         a = self._coeff_fn(case)
         sc = scale_factor(case['scale'])
         scm = MP.mpf(sc.numerator) / sc.denominator
@@ -448,7 +460,9 @@ class H(Harness):
     def to_coq(self, case, obs):
         if case['kind'] != 'net':
             return None
-        if obs['valueerror']:
+        if obs['raised']:
+            coeffs, one, mean, ve = [], 0, 0, bool(case['nodes'])      # cannot match the model
+        elif obs['valueerror']:
             coeffs, one, mean, ve = [], 0, 0, True
         else:
             coeffs, one, mean, ve = obs['coeffs'], obs['one'], obs['mean'], False
